@@ -287,6 +287,10 @@ func init() {
 		"bytes.Equal":   extBytesEqual,
 		"bytes.Compare": extBytesCompare,
 		"internal/stringslite.Index": nil,
+		// GODEBUG settings: all at their defaults
+		"(*internal/godebug.Setting).Value":         func(fr *frame, a []value) value { return "" },
+		"(*internal/godebug.Setting).IncNonDefault": func(fr *frame, a []value) value { return nil },
+		"(*internal/godebug.Setting).Undocumented":  func(fr *frame, a []value) value { return false },
 		"runtime.memequal": nil,
 		"strings.Compare": extBytesCompare,
 
@@ -324,6 +328,8 @@ func init() {
 		// ---- unsafe string helpers of the code base
 		"github.com/henrylee2cn/goutil.BytesToString": extBytesToStringAlias,
 		"github.com/henrylee2cn/goutil.StringToBytes": extStringToBytesAlias,
+		"github.com/henrylee2cn/erpc/v6/utils.b2s":    extBytesToStringAlias,
+		"github.com/henrylee2cn/erpc/v6/utils.s2b":    extStringToBytesAlias,
 
 		// ---- sync
 		"(*sync.Mutex).Lock":      extMutexLock,
